@@ -43,6 +43,13 @@ func run(stack, dir, progFile, out string) {
 	w, err := vtrace.Create(out)
 	must(err)
 	it := &pdrv.Interp{St: b.Storage, W: w, Buckets: []string{"b1", "b2"}, Keys: []string{"k1", "k2"}}
+	it.Hook = func(ev map[string]any) {
+		ev["placement"] = []any{}
+		ev["placed"] = stack == "classes" || os.Getenv("VERIF_PLACEMENT") != ""
+		if stack == "classes" || os.Getenv("VERIF_PLACEMENT") != "" {
+			ev["placement"] = placement(b, dir, it.Prog(), it.ModelVid)
+		}
+	}
 	f, err := os.Open(progFile)
 	must(err)
 	sc := bufio.NewScanner(f)
